@@ -182,10 +182,114 @@ def register_input_replaces_datatype():
     return 'bool', cbool(ok)
 
 
+# ---- commands (CmdModel.v)
+def _command():
+    return find_class(parse(PA), 'Command')
+
+
+def command_clone_copies_argument_and_result():
+    """Command.clone: a new object, properties set with init, then argument AND result are each replaced by a copy
+    (through the property setters) before finish rebuilds the CommandType"""
+    want = ['res = type(self)(**kwds)', 'res.name = self.name', 'self.fixExport()', 'res.func = self.func',
+            'res.init(properties)', 'res.init(res.ownProperties)',
+            'if res.argument: res.argument = res.argument.copy()', 'if res.result: res.result = res.result.copy()',
+            'res.finish()', 'return res']
+    return 'bool', cbool(_stmts(find_func(_command(), 'clone')) == want)
+
+
+def command_merge_in_place():
+    """Command.merge / updateProperties / finish: init(merged) on the object itself (argument and result are taken
+    over, not copied), own properties handed on unchanged, the CommandType rebuilt from argument and result"""
+    c = _command()
+    ok = _stmts(find_func(c, 'merge')) == ['self.init(merged_properties)', 'self.finish()']
+    ok = ok and _stmts(find_func(c, 'updateProperties')) == ['merged_properties.update(self.ownProperties)']
+    ok = ok and _stmts(find_func(c, 'finish')) == ['self.datatype = CommandType(self.argument, self.result)']
+    return 'bool', cbool(ok)
+
+
+def command_create_from_value():
+    st = _stmts(find_func(_command(), 'create_from_value'))
+    return 'bool', cbool(len(st) == 2 and st[0].startswith('if not callable(value): raise ProgrammingError(')
+                         and st[1] == 'return self.clone(properties)(value)')
+
+
+def command_call_marks_optional():
+    """Command.__call__: the optional list is assigned on the argument object the Command holds (only when it is a
+    StructOf), the doc string becomes the description when there is no own description"""
+    st = _stmts(find_func(_command(), '__call__'))
+    ok = (len(st) == 4 and st[0].startswith('if isinstance(self.argument, StructOf): sig = inspect.signature(func)')
+          and st[0].endswith('self.argument.optional = [p for p, v in sig.parameters.items() if v.default is not inspect.Parameter.empty]')
+          and st[1] == "if 'description' not in self.ownProperties and func.__doc__ is not None: "
+                       "self.description = inspect.cleandoc(func.__doc__) self.ownProperties['description'] = self.description"
+          and st[2] == 'self.func = func' and st[3] == 'return self')
+    return 'bool', cbool(ok)
+
+
+def command_own_properties():
+    """Command.__init__: argument and result are stored only when given, ownProperties is a copy of the dict"""
+    f = find_func(_command(), '__init__')
+    txt = _norm(f)
+    ok = ('if argument is not False: if isinstance(argument, (tuple, list)): argument = TupleOf(*argument) '
+          'self.argument = argument self.result = result' in txt
+          and _stmts(f)[-1] == 'self.ownProperties = self.propertyValues.copy()')
+    return 'bool', cbool(ok)
+
+
+# ---- mixin state (frappy/mixins.py)
+def _is_mutable_literal(v):
+    if isinstance(v, (ast.Dict, ast.List, ast.Set, ast.ListComp, ast.DictComp, ast.SetComp)):
+        return True
+    return isinstance(v, ast.Call) and isinstance(v.func, ast.Name) and \
+        v.func.id in ('dict', 'list', 'set', 'OrderedDict', 'defaultdict', 'bytearray')
+
+
+def mixins_no_mutable_class_attribute():
+    """no class body in frappy/mixins.py binds a name to a mutable container (a dict / list / set shared by all
+    instances); HasControlledBy.inputCallbacks is the empty tuple"""
+    t = parse(MX)
+    ok = True
+    for c in t.body:
+        if isinstance(c, ast.ClassDef):
+            for node in c.body:
+                v = node.value if isinstance(node, (ast.Assign, ast.AnnAssign)) else None
+                if v is not None and _is_mutable_literal(v):
+                    ok = False
+    hcb = find_class(t, 'HasControlledBy')
+    v = None
+    for node in hcb.body:
+        if isinstance(node, ast.Assign) and any(isinstance(x, ast.Name) and x.id == 'inputCallbacks' for x in node.targets):
+            v = node.value
+    ok = ok and v is not None and isinstance(v, ast.Tuple) and not v.elts
+    return 'bool', cbool(ok)
+
+
+def register_input_creates_instance_dict_first():
+    """register_input: the per instance dict is bound to the instance BEFORE the first write; nothing else writes
+    into inputCallbacks anywhere in the module"""
+    t = parse(MX)
+    st = _stmts(find_func(find_class(t, 'HasControlledBy'), 'register_input'))
+    ok = (len(st) >= 2 and st[0] == 'if not self.inputCallbacks: self.inputCallbacks = {}'
+          and st[1] == 'self.inputCallbacks[name] = deactivate_control')
+    writes = 0
+    for n in ast.walk(t):
+        if isinstance(n, (ast.Assign, ast.AugAssign, ast.Delete)):
+            targets = n.targets if isinstance(n, (ast.Assign, ast.Delete)) else [n.target]
+            for x in targets:
+                if isinstance(x, ast.Subscript) and isinstance(x.value, ast.Attribute) and x.value.attr == 'inputCallbacks':
+                    writes += 1
+        if isinstance(n, ast.Call) and isinstance(n.func, ast.Attribute) and isinstance(n.func.value, ast.Attribute) \
+                and n.func.value.attr == 'inputCallbacks' and n.func.attr in ('update', 'setdefault', 'pop', 'clear', 'popitem'):
+            writes += 1
+    return 'bool', cbool(ok and writes == 1)
+
+
 FACTS = [walk_is_reversed_mro, second_loop_merges_in_place, wrapped_classes_skip, param_update_properties, param_merge,
          param_clone, param_create_from_value, accessible_copy, param_own_properties, param_finish_revalidates,
          param_setproperty_routes, hasproperties_fresh_values, property_set_on_instance, module_init_copies,
-         add_accessible_configures_copy, datatype_copy_rebuilds, register_input_replaces_datatype]
+         add_accessible_configures_copy, datatype_copy_rebuilds, register_input_replaces_datatype,
+         command_clone_copies_argument_and_result, command_merge_in_place, command_create_from_value,
+         command_call_marks_optional, command_own_properties, mixins_no_mutable_class_attribute,
+         register_input_creates_instance_dict_first]
 
 FINGERPRINTS = {
     'HasAccessibles.__init_subclass__': _initsub,
